@@ -33,6 +33,13 @@ REQUIRE = {
     "a_cells_dec": 300,
     "a_rows_left_trimmed": 100,
     "a_edit_cases": 200,
+    "a_rows_width_judged": 5000,
+    "a_cases_canvas_clipped": 300,
+    "a_clip_right_before_wide_char_with_own_attr": 15,
+    "a_clip_left_after_wide_char_with_own_attr": 15,
+    "a_rows_with_charset_runs": 800,
+    "a_rows_with_charset_runs_and_several_attrs": 500,
+    "a_attr_boundary_on_charset_boundary": 400,
     "b_cases": 400,
     "b_cells_judged": 15000,
     "b_cells_remapped": 5000,
@@ -159,15 +166,32 @@ def gen_text(rng, enc, as_bytes, n):
     return "".join(out)
 
 
+def gen_dense_markup(rng, text):
+    """flat list of short tagged pieces over 2-4 attributes: an attribute boundary every 1-3 characters"""
+    attrs = rng.sample(range(NPOOL), rng.randint(2, 4))
+    items, i, last = [], 0, None
+    while i < len(text):
+        n = rng.randint(1, 3)
+        a = rng.choice([x for x in attrs if x != last] or attrs)
+        last = a
+        piece = ["S", text[i : i + n]]
+        items.append(piece if a == 0 else ["T", a, piece])
+        i += n
+    node = ["L", items]
+    if rng.random() < 0.3:
+        node = ["T", rng.randrange(NPOOL), node]
+    return node
+
+
 def gen_markup(rng, text, depth, allow_empty=True):
     """random nested descriptor over `text`"""
     r = rng.random()
-    if depth <= 0 or (len(text) <= 1 and r < 0.5) or r < 0.18:
+    if depth <= 0 or (len(text) <= 1 and r < 0.5) or r < 0.14:
         return ["S", text]
-    if r < 0.5:
+    if r < 0.42:
         return ["T", rng.randrange(NPOOL), gen_markup(rng, text, depth - 1, allow_empty)]
     # list: cut the text into 1..5 parts
-    k = rng.randint(1, min(5, max(1, len(text))))
+    k = rng.randint(min(2, max(1, len(text))), min(5, max(1, len(text))))
     cuts = sorted(rng.randint(0, len(text)) for _ in range(k - 1))
     parts = []
     last = 0
@@ -208,12 +232,42 @@ def gen_a_case(rng):
     }
     if widget == "edit":
         cut = rng.randint(0, len(text))
-        case["markup"] = gen_markup(rng, text[:cut], 3, allow_empty=False)
+        case["markup"] = gen_dense_markup(rng, text[:cut]) if rng.random() < 0.25 else gen_markup(rng, text[:cut], 3, allow_empty=False)
         case["edit_text"] = text[cut:]
         case["pos"] = rng.choice([0, len(text) - cut, len(text) - cut, rng.randint(0, len(text) - cut)])
         case["focus"] = rng.random() < 0.85
     else:
-        case["markup"] = gen_markup(rng, text, 4)
+        case["markup"] = gen_dense_markup(rng, text) if rng.random() < 0.25 else gen_markup(rng, text, 4)
+    if case["w"] >= 2 and rng.random() < 0.25:
+        # canvas-level clipping of the rendered rows (what Columns / Padding / Overlay do to a child canvas)
+        left = rng.randint(0, case["w"] - 1)
+        right = rng.randint(0, case["w"] - 1 - left)
+        if left or right:
+            case["clip"] = [left, right]
+        if widget == "text" and rng.random() < 0.5:
+            # aimed: a left-aligned clipped line whose view edge falls in the middle of a double-width character
+            line = text.split("\n")[0]
+            col, starts, before, after = 0, [], [], []
+            fl = M.flatten_markup(case["markup"], POOL)
+            for i, ch in enumerate(line):
+                if char_cols(ch) == 2 and col + 2 <= case["w"]:
+                    starts.append(col)
+                    if i > 0 and not _same(fl[i - 1][1], fl[i][1]):
+                        before.append(col)  # the wide character starts an attribute run: cut it on the right
+                    if i + 1 < len(line) and not _same(fl[i + 1][1], fl[i][1]) and col + 2 < case["w"]:
+                        after.append(col)  # it ends one: cut it on the left
+                col += char_cols(ch)
+            if starts:
+                right = rng.random() < 0.5
+                if (right and before) or (not right and after):
+                    c0 = rng.choice(before if right else after)
+                else:
+                    c0 = rng.choice(starts)
+                case["wrap"], case["align"] = "clip", "left"
+                if right:
+                    case["clip"] = [0, case["w"] - (c0 + 1)]
+                elif c0 + 1 < case["w"]:
+                    case["clip"] = [c0 + 1, rng.randint(0, case["w"] - c0 - 2)]
     return case
 
 
@@ -256,6 +310,21 @@ def split_row(segs, mode):
         items.append((chb, w, a, cs))
         pos += len(chb)
     return items, attr_split, cs_split
+
+
+def _row_end_class(items, src, index, enc) -> str:
+    """where does a too-short row stop, in terms of the source text: at an attribute and/or charset boundary?"""
+    last = None
+    for b, _w, _a, cs in items:
+        ch = _decode_item(b, cs, enc)
+        if ch in index:
+            last = index[ch]
+    if last is None or last + 1 >= len(src):
+        return "ends=end-of-text-or-unidentified"
+    (c1, a1), (c2, a2) = src[last], src[last + 1]
+    ab = not _same(a1, a2)
+    cb = (c1 in DEC) != (c2 in DEC) and enc != "utf-8"
+    return "ends=" + ("attr+charset-boundary" if ab and cb else "attr-boundary" if ab else "charset-boundary" if cb else "inside-a-run")
 
 
 def _match_trailing(cells, src, nxt, ell_ok):
@@ -350,6 +419,10 @@ def a_render(case):
         else:
             w = urwid.Text(mk, align=case["align"], wrap=case["wrap"])
             canv = w.render((case["w"],))
+        clip = case.get("clip")
+        if clip:
+            canv = urwid.CompositeCanvas(canv)
+            canv.pad_trim_left_right(-clip[0], -clip[1])
         rows = [list(r) for r in canv.content()]
         return rows, canv.cols()
     finally:
@@ -367,7 +440,7 @@ def a_eval(case, stats=None):
             if ch in index:
                 raise Skip("source characters not distinct")
             index[ch] = i
-    bshape = f"{case['widget']}|wrap={case['wrap']}|align={case['align']}|enc={mode}"
+    bshape = f"{case['widget']}|wrap={case['wrap']}|align={case['align']}|enc={mode}" + ("|canvas-clip" if case.get("clip") else "")
     shape = bshape + ("|bytes" if case["bytes"] else "")
     out = []
 
@@ -392,8 +465,11 @@ def a_eval(case, stats=None):
             cnt(f"a_render_raised_not_judged:{type(e).__name__}:{where}:wrap={case['wrap']}:enc={mode}")
         return out
     cnt("a_rendered")
-    if cols != case["w"]:
-        cnt("a_cols_mismatch_not_judged")
+    clip = case.get("clip") or [0, 0]
+    if clip != [0, 0]:
+        cnt("a_cases_canvas_clipped")
+    if cols != case["w"] - clip[0] - clip[1]:
+        out.append((f"C17|a|canvas-cols-differ-from-requested|{bshape}", f"cols()={cols}, requested {case['w']} minus clip {clip}"))
     item_rows = []
     for y, segs in enumerate(rows):
         try:
@@ -405,7 +481,20 @@ def a_eval(case, stats=None):
         if split_attr:
             out.append((f"C17|a|attr-run-ends-inside-a-character|{shape}", f"row {y}: {segs!r}"))
         if split_cs:
-            cnt("a_rows_charset_run_splits_char_not_judged")
+            out.append((f"C17|a|charset-run-ends-inside-a-character|{bshape}", f"row {y}: {segs!r}"))
+        # every cell of the row must exist: (attr, charset, text) triples cover exactly cols() columns
+        roww = sum(w for _b, w, _a, _cs in items)
+        cnt("a_rows_width_judged")
+        if roww != cols:
+            out.append((f"C17|a|row-width-differs-from-canvas|{'shorter' if roww < cols else 'longer'}|{_row_end_class(items, src, index, enc)}|enc={mode}", f"row {y} covers {roww} of {cols} columns: {segs!r}"))
+        # bookkeeping for the charset dimension
+        if any(cs is not None for _b, _w, _a, cs in items):
+            cnt("a_rows_with_charset_runs")
+            if len({a for _b, _w, a, _cs in items}) > 1:
+                cnt("a_rows_with_charset_runs_and_several_attrs")
+        for (_b1, _w1, a1, cs1), (_b2, _w2, a2, cs2) in zip(items, items[1:]):
+            if cs1 != cs2 and not _same(a1, a2):
+                cnt("a_attr_boundary_on_charset_boundary")
         item_rows.append(items)
     ell_ok = case["wrap"] == "ellipsis"
     seen_any_attr = False
@@ -419,7 +508,7 @@ def a_eval(case, stats=None):
             if b == b" ":
                 kind = "S"
                 if cs is not None:
-                    cnt("a_cells_charset_flag_wrong_not_judged")
+                    out.append((f"C17|a|charset-flag|blank-flagged-as-line-drawing|{bshape}", f"row {y}: {rows[y]!r}"))
             elif ch in index:
                 kind, idx = "A", index[ch]
             elif ch == " ":
@@ -432,7 +521,8 @@ def a_eval(case, stats=None):
                 alt = DEC_GRAPHICS.get(b[0]) if (cs is None and len(b) == 1) else (b.decode(enc, "replace") if cs == "0" else None)
                 if alt in index:
                     kind, idx = "A", index[alt]
-                    cnt("a_cells_charset_flag_wrong_not_judged")
+                    what = "line-drawing-char-lost-its-flag" if cs is None else "plain-char-flagged-as-line-drawing"
+                    out.append((f"C17|a|charset-flag|{what}|{bshape}", f"row {y}: source char {alt!r} shown as bytes {b!r} with charset flag {cs!r}; row={rows[y]!r}"))
                 else:
                     kind = "X"
                     cnt("a_cells_unknown_glyph_not_judged")
@@ -511,6 +601,10 @@ def a_eval(case, stats=None):
             cnt("a_rows_left_trimmed")
         lead = [(c[0], c[1]) for c in cells[:first]][::-1]
         trail = [(c[0], c[1]) for c in cells[last + 1 :]]
+        if clip[1] and trail and li + 1 < len(src) and char_cols(src[li + 1][0]) == 2 and not _same(src[li + 1][1], src[li][1]):
+            cnt("a_clip_right_before_wide_char_with_own_attr")
+        if clip[0] and lead and fi > 0 and char_cols(src[fi - 1][0]) == 2 and not _same(src[fi - 1][1], src[fi][1]):
+            cnt("a_clip_left_after_wide_char_with_own_attr")
         cnt("a_cells_blank_judged", len(lead) + len(trail))
         if all(a is None for _k, a in lead) and not _match_leading(lead, src, fi - 1):
             cnt("a_rows_odd_blank_structure_all_none")
